@@ -741,6 +741,34 @@ func formatRef(c *facet.Ctx, parts []FmtPart, args []FmtArg, ro refOpts) (string
 	return nfc(b.String()), fOK, ""
 }
 
+// formatShapeOK: every verb letter is supported, every (explicit or implicit)
+// argument index exists, and no argument is left unused.
+func formatShapeOK(parts []FmtPart, nargs int) bool {
+	next, highest := 1, 0
+	for _, p := range parts {
+		if p.Verb == nil {
+			continue
+		}
+		switch p.Verb.Mode {
+		case "v", "t", "b", "d", "o", "x", "X", "e", "E", "f", "g", "G", "s", "q":
+		default:
+			return false
+		}
+		n := next
+		if p.Verb.Idx > 0 {
+			n = p.Verb.Idx
+		}
+		next = n + 1
+		if n > highest {
+			highest = n
+		}
+		if n > nargs {
+			return false
+		}
+	}
+	return highest >= nargs
+}
+
 func classifyFmt(c *facet.Ctx, in FmtCase) {
 	nt := false
 	for _, p := range in.Parts {
@@ -910,6 +938,13 @@ func checkFormatList(c *facet.Ctx, in FmtCase) *facet.Failure {
 		// reported is not documented; a successful result must be empty.
 		c.Label("empty-sequences")
 		if o.failed() {
+			if formatShapeOK(in.Parts, len(in.Args)) {
+				// supported verbs, every index within the arguments, every
+				// argument used: with nothing to format nothing can go wrong
+				// ("the length of the list arguments dictates the length of
+				// the resulting list")
+				return tagFmt(in, facet.Failf("in-domain-error", "formatlist(%v) failed although all sequence arguments are empty and the format string is well-formed: %s", in, o).With("fn", in.Fn))
+			}
 			c.Label("ref_abstains")
 			return nil
 		}
@@ -951,10 +986,10 @@ func init() {
 	const fmtRule = "format strings built from the documented grammar: 0-3 verbs (v s q d f e g t x X b o E G, 1/30 an unsupported letter) with 0-3 of the flags '-', '0', '+', ' ' (and '#', mostly on v), optional width 1..33, optional precision 0..20, optional explicit [n] indices (in range, reused, or beyond the arguments), literal runs (incl. %%, non-ASCII); arguments matched to the verbs' conversions 7/12 of the time, else any of string (cluster alphabet), numeric string, number (class table, no infinities), bool, null, list, tuple, object, map; one argument too many / too few in 1/10 each; "
 	facet.Register(facet.F[FmtCase]{
 		Prop: "C14", Name: "ref/format", Rule: fmtRule + "reference = the doc comment of Format: fmt.Sprintf on *big.Int / *big.Float for the numeric verbs, own grapheme-cluster truncation and padding for %s/%q/%v, encoding/json for %q, %#v and non-primitive %v; documented errors (unsupported verb, null with a verb other than v, impossible conversion, missing argument, unused argument) must fail; undocumented combinations abstain; non-trivial = a verb with >= 2 flags or an explicit index",
-		Quick: 60000, Thorough: 400000, Gen: genFmtCase("format"), Check: wrap(checkFormat),
+		Quick: 120000, Thorough: 400000, Gen: genFmtCase("format"), Check: wrap(checkFormat),
 	})
 	facet.Register(facet.F[FmtCase]{
 		Prop: "C14", Name: "ref/formatlist", Rule: fmtRule + "some arguments turned into lists/tuples of a common length 0..3 (1/12 with a different length); reference = Format applied per position with non-sequence arguments repeated; different lengths must fail; non-trivial as for format, or a length mismatch",
-		Quick: 40000, Thorough: 300000, Gen: genFmtCase("formatlist"), Check: wrap(checkFormatList),
+		Quick: 80000, Thorough: 300000, Gen: genFmtCase("formatlist"), Check: wrap(checkFormatList),
 	})
 }
